@@ -12,6 +12,9 @@ out=$wt/out
 dm=$m
 if [ -n "$SEEDED_ROUND2" ]; then wt=/tmp/wu_$id; out=$wt/out; [ "$m" = "a" ] && dm=c; [ "$m" = "b" ] && dm=d; fi
 dst=/verif/seeded/$id-$dm
+# round 3 (module-targeted): id is the agent number N, worktree /tmp/wv_N, stored as M<N>-<letter>;
+# the checks to run must be given explicitly
+if [ -n "$SEEDED_ROUND3" ]; then wt=/tmp/wv_$id; out=$wt/out; dst=/verif/seeded/M$id-$m; fi
 [ -f $out/mutant_$m.diff ] || { echo "no mutant $id $m"; exit 2; }
 cd $wt || exit 2
 git checkout -q -- src 2>/dev/null
@@ -26,7 +29,7 @@ git checkout -q -- src
 mkdir -p $dst
 cp $out/mutant_$m.diff $dst/patch.diff
 cp $out/demo_mutant_$m.rs $dst/demo.rs
-echo "SEEDED $id-$dm worktree: suite with mutant: $suite | demo without: $base | demo with: $with"
+echo "SEEDED $(basename $dst) worktree: suite with mutant: $suite | demo without: $base | demo with: $with"
 # run the checks against /repo with the mutant applied
 cd /repo || exit 2
 if [ -n "$(git status --porcelain -- src)" ]; then echo "repo working tree not clean"; exit 2; fi
@@ -37,7 +40,7 @@ for c in $checks; do
   o=$(cd /verif && ./check.sh $c quick 2>&1); rc=$?
   sigs=$(echo "$o" | grep -E "^violation sig=" | sed 's/ cases=.*//; s/violation sig=//' | cut -c1-110 | tr '\n' ';')
   [ -z "$sigs" ] && sigs=$(echo "$o" | grep -E "VIOLATION|regression" | head -2 | cut -c1-140 | tr '\n' ';')
-  echo "SEEDED $id-$dm check $c quick rc=$rc $sigs"
+  echo "SEEDED $(basename $dst) check $c quick rc=$rc $sigs"
   res="$res{\"check\":\"$c\",\"tier\":\"quick\",\"exit\":$rc,\"signatures\":\"$(echo $sigs | sed 's/"/\\"/g')\"},"
 done
 cat > $dst/run.json <<EOJ
